@@ -79,6 +79,8 @@ type HLog struct {
 	// the last ResetCounter) - -1 = none.
 	VetoAt  int
 	negSeen int
+	// VetoAutoOnly: VetoNames apply only inside auto transitions.
+	VetoAutoOnly bool
 	// Hook, when set, runs inside every handler call (fault injection, nested
 	// mutations).
 	Hook func(c *HCall, e *am.Event)
@@ -97,7 +99,12 @@ func (l *HLog) record(binding, name string, e *am.Event, neg bool) bool {
 	}
 	ok := true
 	if neg {
-		if l.VetoNames[name] || l.negSeen == l.VetoAt {
+		byName := l.VetoNames[name]
+		if byName && l.VetoAutoOnly {
+			tx := e.Transition()
+			byName = tx != nil && tx.IsAuto()
+		}
+		if byName || l.negSeen == l.VetoAt {
 			ok = false
 		}
 		l.negSeen++
